@@ -486,6 +486,8 @@ def r_modformula(doc, op):
 def r_toggle(doc, op):
   t, c = _pick_col(doc, op)
   if not c: return None
+  if not c['isFormula'] and c['type'].startswith('Ref'):
+    return None     # a reference column becomes a formula column only with a formula that yields records
   if c['isFormula']:
     return ['ModifyColumn', t['tableId'], c['colId'], {'isFormula': False}]
   return ['ModifyColumn', t['tableId'], c['colId'],
